@@ -1367,6 +1367,14 @@ fn norm_err(msg: &str) -> String {
   out.chars().take(200).collect()
 }
 
+/// source file (no directory, no line) of a panic location `path/file.rs:123`: two defects with the
+/// same generic message ("attempt to subtract with overflow") stay distinct classes
+fn panic_file(at: &Value) -> String {
+  let at = at.as_str().unwrap_or("");
+  let path = at.rsplit_once(':').map(|(p, _)| p).unwrap_or(at);
+  path.rsplit('/').next().unwrap_or("").to_string()
+}
+
 struct Verdict {
   sig: String,
   observed: Value,
@@ -1378,13 +1386,13 @@ fn judge(case: &Case, out: &Outcome) -> Vec<Verdict> {
     Outcome::Result(r) => {
       match r["load"].as_str() {
         Some("panic") => v.push(Verdict {
-          sig: format!("load:panic:{}", norm_msg(r["msg"].as_str().unwrap_or(""), &case.values)),
+          sig: format!("load:panic:{}:{}", panic_file(&r["at"]), norm_msg(r["msg"].as_str().unwrap_or(""), &case.values)),
           observed: json!({"phase": "load", "panic": r["msg"], "at": r["at"]}),
         }),
         Some("ok") => {
           for p in r["scan_panics"].as_array().cloned().unwrap_or_default() {
             v.push(Verdict {
-              sig: format!("scan:panic:{}", norm_msg(p["msg"].as_str().unwrap_or(""), &case.values)),
+              sig: format!("scan:panic:{}:{}", panic_file(&p["at"]), norm_msg(p["msg"].as_str().unwrap_or(""), &case.values)),
               observed: json!({"phase": "scan", "step": p["step"], "panic": p["msg"], "at": p["at"], "source": p["source"]}),
             });
           }
